@@ -354,6 +354,11 @@ def patch_overlay(patch_path):
     shutil.rmtree(d, ignore_errors=True)
     os.makedirs(d)
     files = re.findall(r"^diff --git a/(\S+) b/(\S+)$", open(patch_path).read(), re.M)
+    other = [b for a, b in files if not b.endswith(".go")]
+    if other:
+        # the overlay only reaches what the Go build reads; migrations, config files etc. are read
+        # from the working tree at run time
+        raise SystemExit("patch %s touches files the build overlay cannot carry (%s): use tools/seedcheck.sh --inplace" % (patch_path, ", ".join(other)))
     for a, b in files:
         src = os.path.join(REPO, a)
         if os.path.exists(src):
